@@ -1392,13 +1392,15 @@ protected:
 
       if (chunkSize == 0)
       {
-        // Final chunk, look for final \r\n
-        auto finalCRLF = data.find("\r\n", pos);
+        // Final chunk: the message ends with the empty line that closes the
+        // (possibly empty) trailer section. pos - 2 is the CRLF ending the
+        // last-chunk line, so "\r\n\r\n" matches there when no trailers follow.
+        auto finalCRLF = data.find("\r\n\r\n", pos - 2);
         if (finalCRLF == std::string::npos)
         {
           return std::string::npos; // Need more data
         }
-        return finalCRLF + 2;
+        return finalCRLF + 4;
       }
 
       // Skip chunk data + trailing \r\n
